@@ -49,30 +49,37 @@ def plan(tier, seed):
 def floors(tier):
     return {"distinct_nontrivial": 200, "unwind.close": 200, "unwind.exc": 50, "op:full": 500, "op:take": 100,
             "op:abandon": 100, "op:drop": 100, "op:boom_raised": 50, "op:the": 50, "cls:dup_domain": 50,
-            "cls:caching_off": 100, "cache.check.hit": 500, "cls:ruletree_history": 100, "cls:shared_expression_pool": 60, "cls:twin:nexttree": 30, "cls:twin:kwvar": 30, "cls:variable_whose_domain_has_no_instance": 60, "cls:twin:concat": 25, "cls:twin:flatsub": 25, "cls:twin:sharedconc": 20, "cls:twin:blockstyle": 20, "cls:twin:shareddomain": 40, "cls:twin:ix": 40}
+            "cls:caching_off": 100, "cache.check.hit": 500, "cls:ruletree_history": 100, "cls:shared_expression_pool": 60, "cls:twin:nexttree": 30, "cls:twin:kwvar": 30, "cls:variable_whose_domain_has_no_instance": 60, "cls:twin:concat": 25, "cls:twin:flatsub": 25, "cls:twin:sharedconc": 20, "cls:twin:blockstyle": 20, "cls:twin:shareddomain": 40, "cls:twin:ix_with_empty_collections": 400, "cls:twin:ix": 40}
 
 
 def cases(spec, ctx):
     from . import c12
     for i in range(spec["n"]):
         rng = ctx.rng(spec["sub"], i)
-        if rng.random() < 0.12:
+        if rng.random() < 0.16:
             # query shapes whose answer is defined by a FRESH twin (built and evaluated once): a rule tree with next_rule
             # (its "also" semantics is outside C12) and a rule over domain-less variables with keyword constraints
             ops = []
             for _ in range(rng.randint(2, 6)):
                 kind = rng.choice(["full", "full", "take", "abandon", "drop"])
                 ops.append([kind, 0] if kind == "full" else [kind, 0, rng.randint(1, 3)])
-            twin = rng.choice(["nexttree", "kwvar", "concat", "flatsub", "sharedconc", "blockstyle", "ix", "ix", "shareddomain", "shareddomain"])
+            twin = rng.choice(["nexttree", "kwvar", "concat", "flatsub", "sharedconc", "blockstyle", "ix", "ix", "shareddomain", "shareddomain"] + ["ixforall"] * 7)
             if twin == "kwvar":
                 # an iterator that is kept alive but never advanced again is beyond the quantifier ("take k results then
                 # close"): a keyword-constrained variable marks itself while its constraints are being evaluated and a
                 # suspended evaluation holds that mark (DESIGN 9.5) - closed and dropped iterators are in scope
                 ops = [["take"] + o[1:] if o[0] == "abandon" else o for o in ops]
-            if twin == "ix":
+            if twin in ("ix", "ixforall"):
                 from .. import ix
                 ixc = ix.gen_case(rng)
-                if rng.random() < 0.4:
+                if twin == "ixforall":
+                    # a universal statement over the element's own collection, some of these collections empty
+                    twin = "ix"
+                    for _ in range(300):
+                        if ix.tags(ixc) & {"forall_subs", "forall_subs_pred", "forall_subs_vs_d"}:
+                            break
+                        ixc = ix.gen_case(rng)
+                if rng.random() < 0.4 or ix.tags(ixc) & {"forall_subs", "forall_subs_pred", "forall_subs_vs_d"}:
                     # (only here, where the answer is defined by a fresh twin and not by the oracle: elements whose own collection
                     #  is EMPTY - what a for_all over no value at all means is not judged, that it means the same every time is)
                     for j in rng.sample(range(len(ixc["world"]["subs"])), rng.randint(1, 3)):
